@@ -957,6 +957,20 @@ fn reject_grid() -> Vec<Case> {
             }
         }
     }
+    // a high surrogate followed by a second \u escape: still an invalid code point, never half of a pair
+    for prefix in ["", "f"] {
+        for q in ['\'', '"'] {
+            for hi in ["d800", "D83D", "dbff", "DBFF"] {
+                for lo in ["0041", "dc00", "DE00", "dfff", "d800", "D83D", "0000", "ffff"] {
+                    v.push(reject(wrap(prefix, q, "a", &format!("\\u{}\\u{}", hi, lo), "b"), "str-surrogate-then-escape"));
+                    v.push(reject(wrap(prefix, q, "", &format!("\\u{}\\U0000{}", hi, lo), ""), "str-surrogate-then-escape"));
+                }
+                for next in ["\\n", "\\x41", "\\101", "A", "\u{e9}"] {
+                    v.push(reject(wrap(prefix, q, "", &format!("\\u{}{}", hi, next), ""), "str-surrogate-then-escape"));
+                }
+            }
+        }
+    }
     // truncated escapes
     for q in ['\'', '"'] {
         for prefix in ["", "f", "b"] {
